@@ -17,8 +17,20 @@ from symex import SymEx, show, strip
 CR = 'yui_homology::utils::chain_reducer::ChainReducer::<I, R>::'
 
 
+FIELD_ROLE = {}      # field name of a struct returned by deg_trip -> tuple position ('0' | '1' | '2')
+
+
+def _role(x):
+    if FIELD_ROLE:
+        x = re.sub(r'(deg_trip\(arg1, arg2\))\.(\w+)', lambda m: '%s.%s' % (m.group(1), FIELD_ROLE.get(m.group(2), m.group(2))), x)
+    return x
+
+
 def sk(t):
-    return re.sub(r'#(?:i\d+:)?\d+\.\d+', '', show(t))
+    x = re.sub(r'#(?:i\d+:)?\d+\.\d+', '', show(t))
+    if FIELD_ROLE:
+        x = re.sub(r'(deg_trip\(arg1, arg2\))\.(\w+)', lambda m: '%s.%s' % (m.group(1), FIELD_ROLE.get(m.group(2), m.group(2))), x)
+    return x
 
 
 def _calls(facts, name, havoc=True, inline=None):
@@ -37,6 +49,7 @@ def _calls(facts, name, havoc=True, inline=None):
 
 
 def run(facts, rep):
+    FIELD_ROLE.clear()
     problems = {}
     unknowns = []
 
@@ -59,7 +72,20 @@ def run(facts, rep):
         rep.indet('E18: ChainReducer::deg_trip not found')
         return
     rep.saw(dt)
-    rets = [sk(p.ret) for p in SymEx(dt).run() if p.end == 'return']
+    # the three neighbouring degrees may come back as a tuple or as a private struct: components are identified by
+    # value (i - d, i, i + d) and every later text `deg_trip(..).<component>` is rewritten to the positions .0 / .1 / .2
+    raw = [strip(p.ret) for p in SymEx(dt).run() if p.end == 'return']
+    if len(raw) == 1 and raw[0][0] == 'adt' and len(raw[0][4]) == 3:
+        role = {'sub(arg2, *arg1.d_deg)': '0', 'arg2': '1', 'add(arg2, *arg1.d_deg)': '2'}
+        for fname, val in zip(raw[0][3], raw[0][4]):
+            if sk(val) in role:
+                FIELD_ROLE[fname] = role[sk(val)]
+        if len(FIELD_ROLE) == 3:
+            rets = ['(%s)' % ', '.join(x for x, _ in sorted(((sk(v), FIELD_ROLE[f]) for f, v in zip(raw[0][3], raw[0][4])), key=lambda q: q[1]))]
+        else:
+            rets = [sk(raw[0])]
+    else:
+        rets = [sk(r) for r in raw]
     need(rets == ['(sub(arg2, *arg1.d_deg), arg2, add(arg2, *arg1.d_deg))'], 'deg_trip', 'deg_trip returns %s, expected (i - d, i, i + d)' % rets,
          known=len(rets) == 1 and re.match(r'\(((sub|add)\(arg2, \*arg1\.d_deg\)|arg2)(, ((sub|add)\(arg2, \*arg1\.d_deg\)|arg2)){2}\)$', rets[0]) is not None)
 
@@ -91,7 +117,7 @@ def run(facts, rep):
         a = [sk(x) for x in e.args]
         if last == 'insert' and 'mats' in a[0] and len(e.args) == 3:
             v = value_of(e.args[2])
-            ins.setdefault(a[1], set()).add(re.sub(r'&mut _\d+', 'IT', re.sub(r'#(?:i\d+:)?\d+\.\d+', '', show(v, -1000))))
+            ins.setdefault(a[1], set()).add(_role(re.sub(r'&mut _\d+', 'IT', re.sub(r'#(?:i\d+:)?\d+\.\d+', '', show(v, -1000)))))
 
     def mat_at(k):
         return r'(matrix\(arg1, deg_trip\(arg1, arg2\)\.%d\)|get\(&(post\()*\*?arg1\.mats\)*, &deg_trip\(arg1, arg2\)\.%d\))\.Some\.0' % (k, k)
